@@ -7,6 +7,7 @@ import (
 	"errors"
 	"fmt"
 	"io"
+	"math"
 	"os"
 	"path/filepath"
 	"reflect"
@@ -22,7 +23,11 @@ import (
 
 // ---- building DSL trees ----------------------------------------------------
 
+// floatLits: literal values whose rendering has corner cases (signed zeros, float32, complex)
+var floatLits = []interface{}{0.0, math.Copysign(0, -1), 1.5, float32(0), float32(math.Copysign(0, -1)), float32(2.5), complex(0, 0), complex(math.Copysign(0, -1), 0), 1e21, -3.0}
+
 type bctx struct {
+	calls  int // how often a LitFunc callback of this build has been invoked
 	paths  []PathSpec
 	groups []*jen.Group
 	keyIdx int
@@ -86,6 +91,12 @@ func (c *bctx) build(n *Node) jen.Code {
 		return jen.Lit(n.S)
 	case "unsupported":
 		return jen.Lit(struct{ X int }{n.I}) // documented: Lit of any other type panics when rendered
+	case "flt":
+		return jen.Lit(floatLits[((n.I%len(floatLits))+len(floatLits))%len(floatLits)])
+	case "litfunc":
+		// a callback with state: the library documents that it is executed when the literal is built
+		calls := 0 // per callback: the value says how often THIS callback has run
+		return jen.LitFunc(func() interface{} { calls++; c.calls++; return n.I*1000 + calls })
 	case "bigstr":
 		return jen.Lit(strings.Repeat("x", n.I))
 	case "qual":
@@ -334,6 +345,9 @@ type Env struct {
 	// SharedNames, if set, is the one names table (a Go map owned by the caller) that
 	// "hint_names_shared" ops of every job pass to ImportNames (C09).
 	SharedNames map[string]string
+	// Prefill[i]: bytes the harness knows op i (a Save) will produce; used to set up a target
+	// that differs from them only in line endings ("existing-crlf")
+	Prefill map[int][]byte
 	// FlatSaveDir/SaveTag: Save ops write <FlatSaveDir>/<SaveTag>-op<i>.go, so that several
 	// jobs save side by side into one directory (C09); no fault plans apply.
 	FlatSaveDir string
@@ -433,7 +447,7 @@ func snapshotDir(dir string) []string {
 var oldTime = time.Date(2001, 2, 3, 4, 5, 6, 0, time.UTC)
 
 // setupTarget creates the filesystem situation of a Save op and returns the target path.
-func setupTarget(sub string, plan *FSPlan, op int, prevTarget string) (target string, structural bool) {
+func setupTarget(sub string, plan *FSPlan, op int, prevTarget string, prefill []byte) (target string, structural bool) {
 	os.MkdirAll(sub, 0755)
 	target = filepath.Join(sub, "out.go")
 	switch plan.Target {
@@ -454,6 +468,14 @@ func setupTarget(sub string, plan *FSPlan, op int, prevTarget string) (target st
 		os.WriteFile(filepath.Join(sub, "afile"), []byte("KEEP"), 0644)
 		os.Chtimes(filepath.Join(sub, "afile"), oldTime, oldTime)
 		target = filepath.Join(sub, "afile", "out.go")
+	case "existing-crlf":
+		// an older copy of the same file that went through a tool with other line endings
+		content := []byte(strings.ReplaceAll(string(prefill), "\n", "\r\n"))
+		if len(prefill) == 0 {
+			content = []byte("package keep\r\n")
+		}
+		os.WriteFile(target, content, 0644)
+		os.Chtimes(target, oldTime, oldTime)
 	case "symlink-dangling":
 		os.Symlink(filepath.Join(sub, "elsewhere.go"), target) // the destination does not exist
 	case "symlink-file":
@@ -618,6 +640,11 @@ func execBody(r *Recipe, env *Env, shared []*jen.Statement) (hist []Outcome) {
 				if len(b.frags) > 0 {
 					f.Add(b.frags[op.I%len(b.frags)])
 				}
+			case "line":
+				f.Line()
+			case "line_comment":
+				// chained onto what f.Line() returns: belongs to this blank line of this File only
+				f.Line().Comment(op.S)
 			case "addfrag_chain":
 				// f.Add(x) returns a statement of the File's own: what is chained onto it belongs to this File only
 				if len(b.frags) > 0 {
@@ -649,15 +676,25 @@ func execBody(r *Recipe, env *Env, shared []*jen.Statement) (hist []Outcome) {
 				if faults {
 					w.plan = op.W
 				}
+				var bb *bytes.Buffer
+				const bbPrefix = "earlier output\n"
+				if faults && op.W != nil && op.W.Kind == "bytesbuffer" {
+					// the caller's writer is a plain *bytes.Buffer that already holds something
+					bb = bytes.NewBufferString(bbPrefix)
+				}
 				if env.RenderHook != nil {
 					env.RenderHook(true)
 					defer env.RenderHook(false)
 				}
 				var err error
+				var dst io.Writer = w
+				if bb != nil {
+					dst = bb
+				}
 				switch op.K {
 				case "render":
 					o.Obj = "file"
-					err = f.Render(w)
+					err = f.Render(dst)
 				case "render_frag", "render_frag_nofile":
 					if len(b.frags) == 0 {
 						o.Render = false
@@ -666,10 +703,10 @@ func execBody(r *Recipe, env *Env, shared []*jen.Statement) (hist []Outcome) {
 					i := op.I % len(b.frags)
 					o.Obj = fmt.Sprintf("frag:%d", i)
 					if op.K == "render_frag" {
-						err = b.frags[i].RenderWithFile(w, f)
+						err = b.frags[i].RenderWithFile(dst, f)
 					} else {
 						o.Obj += ":nofile"
-						err = b.frags[i].Render(w)
+						err = b.frags[i].Render(dst)
 					}
 				case "render_group", "render_group_nofile":
 					if len(ctx.groups) == 0 {
@@ -679,16 +716,24 @@ func execBody(r *Recipe, env *Env, shared []*jen.Statement) (hist []Outcome) {
 					i := op.I % len(ctx.groups)
 					o.Obj = fmt.Sprintf("group:%d", i)
 					if op.K == "render_group" {
-						err = ctx.groups[i].RenderWithFile(w, f)
+						err = ctx.groups[i].RenderWithFile(dst, f)
 					} else {
 						o.Obj += ":nofile"
-						err = ctx.groups[i].Render(w)
+						err = ctx.groups[i].Render(dst)
 					}
 				case "render_body":
 					o.Obj = "body"
-					err = f.Group.RenderWithFile(w, f)
+					err = f.Group.RenderWithFile(dst, f)
 				}
 				o.Out = append([]byte(nil), w.buf.Bytes()...)
+				if bb != nil {
+					// what the call added to the caller's buffer (its earlier content must still lead)
+					if strings.HasPrefix(bb.String(), bbPrefix) {
+						o.Out = []byte(bb.String()[len(bbPrefix):])
+					} else {
+						o.Out = append([]byte("<<caller's earlier content damaged>>"), bb.Bytes()...)
+					}
+				}
 				o.Calls = w.sizes
 				o.Fired = w.fired
 				if err != nil {
@@ -728,7 +773,7 @@ func execBody(r *Recipe, env *Env, shared []*jen.Statement) (hist []Outcome) {
 				} else {
 					os.RemoveAll(sub)
 				}
-				target, structural := setupTarget(sub, op.F, i, lastSaveTarget)
+				target, structural := setupTarget(sub, op.F, i, lastSaveTarget, env.Prefill[i])
 				lastSaveSub, lastSaveTarget = sub, target
 				o.FSFault = structural
 				o.Target, _ = filepath.Rel(sub, target)
